@@ -130,11 +130,20 @@ inline void gen_tame_content(Src &s, TFile &f, const std::string &D, bool multil
     for (size_t i = ks.size(); i > 1; i--) std::swap(ks[i - 1], ks[s.below((uint32_t)i)]);
     if (!sec.empty()) f.text += "[" + sec + "]\n";
     for (int k : ks) {
-      std::string key = "k" + std::to_string(k);
+      // (names contain the letters t, f, n, r, v: a tool that mistranslates the escapes \t \f \n \r \v of its
+      // --delimiters option turns those letters into delimiters)
+      static const char *const KEYNAMES[6] = {"", "k1", "tk2", "nf3", "rv4", "k5"};
+      std::string key = KEYNAMES[k];
       std::string val = f.where + ":" + std::to_string(n++);
       if (multiline && D != " " && s.chance(25)) {
-        f.content.append(sec, key, val + "\n  " + val + "-more");
-        f.text += key + sep + val + "\n  " + val + "-more\n";
+        int extra = 1 + (int)s.below(3);
+        std::string mv = val, mt = key + sep + val + "\n";
+        for (int x = 1; x <= extra; x++) {
+          mv += "\n  " + val + "-more" + std::to_string(x);
+          mt += "  " + val + "-more" + std::to_string(x) + "\n";
+        }
+        f.content.append(sec, key, mv);
+        f.text += mt;
         continue;
       }
       f.content.append(sec, key, val);
